@@ -186,3 +186,41 @@ Proof.
     + destruct (h_bs_code h =? 6); [apply andb_prop in Hbs; destruct Hbs as [_ Hb]; apply N.leb_le in Hb; lia|].
       destruct (h_bs_code h =? 7); [apply andb_prop in Hbs; destruct Hbs as [_ Hb]; apply N.leb_le in Hb; lia|discriminate].
 Qed.
+
+(* with a STREAMINFO: the decoded frame has the stream's channel count, every channel has block-size samples,
+   the block size is between 1 and the advertised maximum, and the caller's check accepted the header *)
+Theorem dec_frame_shape si chk bytes h chans rest :
+  dec_frame (Some si) chk bytes = Ok (h, chans, rest) ->
+  length chans = N.to_nat (si_channels si) /\ Forall (fun c => length c = N.to_nat (h_bs h)) chans /\
+  1 <= h_bs h /\ h_bs h <= 65535 /\ h_bs h <= si_max_bs si /\ chk h = Ok tt /\ h_bps h = si_bps si /\ h_rate h = si_rate si /\
+  si_channels si <= 8.
+Proof.
+  intros H. destruct (dec_frame_size (Some si) chk bytes h chans rest H) as (L8 & F & B).
+  unfold dec_frame in H.
+  destruct (parse_header_fields (Some si) (bits_of_bytes bytes)) as [[h0 s1]| |] eqn:Eh; try discriminate.
+  apply header_wf in Eh.
+  destruct (header_checks si h0) as [h1| |] eqn:Eck; try discriminate.
+  unfold header_checks in Eck.
+  destruct (N.leb_spec (h_bs h0) (si_max_bs si)) as [Hmax|]; [|discriminate]. cbn [negb] in Eck.
+  destruct (N.eqb_spec (h_rate h0) (si_rate si)) as [Hr|]; [|discriminate]. cbn [negb] in Eck.
+  destruct (N.eqb_spec (assign_channels (h_assign h0)) (si_channels si)) as [Hc|]; [|discriminate]. cbn [negb] in Eck.
+  destruct (N.eqb_spec (h_bps h0) (si_bps si)) as [Hb|]; [|discriminate]. cbn [negb] in Eck. injection Eck as <-.
+  cbn [bind] in H. destruct (negb _); [discriminate|].
+  destruct (chk h0) as [[]| |] eqn:Echk; try discriminate. cbn [bind] in H. unfold pbind in H.
+  destruct (dec_subframes h0 s1) as [[ch s2]| |] eqn:Es; try discriminate.
+  destruct (p_align s2) as [[u s3]| |]; try discriminate.
+  destruct (p_rd 16 s3) as [[v s4]| |]; try discriminate. unfold pret in H.
+  destruct (crc16 _ =? 0); [|discriminate]. inversion H; subst.
+  unfold wf_header in Eh. repeat (apply andb_prop in Eh; destruct Eh as [Eh ?]).
+  match goal with Ha : (h_assign h <? 11) = true |- _ => apply N.ltb_lt in Ha; destruct (dec_subframes_shape _ _ _ _ Es Ha) as [L F'] end.
+  split; [rewrite L, Hc; reflexivity|]. split; [exact F|]. split.
+  - match goal with Hx : match bs_of_code (h_bs_code h) with _ => _ end = true |- _ => rename Hx into Hbs end.
+    destruct (bs_of_code (h_bs_code h)) as [bv|] eqn:Eb.
+    + apply N.eqb_eq in Hbs. rewrite Hbs. unfold bs_of_code in Eb.
+      repeat match type of Eb with match ?c with _ => _ end = _ => destruct c; try discriminate end;
+        inversion Eb; subst; lia.
+    + destruct (h_bs_code h =? 6); [apply andb_prop in Hbs; destruct Hbs as [Hb1 _]; apply N.leb_le in Hb1; lia|].
+      destruct (h_bs_code h =? 7); [apply andb_prop in Hbs; destruct Hbs as [Hb1 _]; apply N.leb_le in Hb1; lia|discriminate].
+  - repeat split; auto.
+    rewrite <- Hc. unfold assign_channels. destruct (N.ltb_spec (h_assign h) 8); lia.
+Qed.
